@@ -9,6 +9,7 @@
   JSON string escaping (arbitrary snippet text survives) is Cpf.Props.C20.json_roundtrip.
 -/
 import Cpf.Query.Output
+import Cpf.Generated.Tables
 
 namespace Cpf.Props.C15
 open Cpf.Query
@@ -93,6 +94,11 @@ theorem C15_numbered (line : Nat) (ls : List String) (i : Nat) (hi : i < ls.leng
 theorem stripQuotes_quoted (s : List Char) (h : ∀ c ∈ s, c ≠ '"' ∨ True) :
     stripQuotes ('"' :: s ++ ['"']) = s := by
   simp [stripQuotes]
+
+/-- Regenerated: `--output-file` is opened with `os.Create` (create or truncate), the whole result string is written
+    to it once, and it is closed — so the file holds exactly what the chosen mode prints, whatever it held before. -/
+theorem C15_output_file :
+    Cpf.Generated.outputFileUses = ["os.Create(outputFile)", "file.Close()", "file.WriteString(result)"] := by decide
 
 /-- Non-vacuity: two combinations, three items of the three kinds. -/
 example :
